@@ -291,23 +291,6 @@ pub fn vvec_to_name_map<T, A>(graph: &Graph<T, A>, b: Vec<f64>) -> (r: HashMap<T
     requires graph.wf_nodes(), b@.len() == graph.n(),
     ensures name_map_of(*graph, b@, r@),
 { unimplemented!() }
-impl<T, A> Graph<T, A>
-where
-    T: Eq + Clone + PartialOrd + Ord + Hash + Send + Sync + Display,
-    A: Clone,
-{
-//@ extract fn src/graph/query.rs get_all_nodes ty=Graph nobody
-//@ head
-    #[verifier::external_body]
-//@ rewrite
--> Vec<&Arc<Node<T, A>>>
-//@ with
--> (r: Vec<&Arc<Node<T, A>>>)
-//@ spec
-    ensures r@.len() == self.n(),
-//@ end
-}
-
 // b is b0 with the scaling rule applied to each of its n entries
 pub open spec fn scaled_form(b0: Seq<f64>, b: Seq<f64>, n: usize, normalized: bool, directed: bool) -> bool {
     &&& b0.len() == n && b.len() == n
